@@ -52,6 +52,12 @@ def _gen0(rng, tier):
         labs, akind = G.alphabet(rng, k=rng.randint(2, 4))
         lag = rng.choice([1, 2, 3, 4, 7])
         yield {'trajs': G.many_short(rng, labs, lag), 'lag': lag, 'form': rng.choice(['loa', 'lol', 'obj']), 'dtype': 'int64', 'alpha': akind + '+many'}
+    for _ in range(G.budget(10) if tier == 'quick' else 300):        # many snippets of exactly lag + 1 (and lag, lag + 2) frames
+        labs, akind = G.alphabet(rng, k=rng.randint(2, 4))
+        lag = rng.choice([1, 2, 3, 5])
+        trajs = [[rng.choice(labs) for _ in range(lag + rng.choice([1, 1, 1, 0, 2]))] for _ in range(rng.randint(3, 40))]
+        trajs.insert(rng.randrange(len(trajs)), G.traj(rng, labs, rng.randint(20, 60)))
+        yield {'trajs': trajs, 'lag': lag, 'form': rng.choice(['loa', 'lol', 'obj']), 'dtype': 'int64', 'alpha': akind + '+snippets'}
     for _ in range(1 if tier == 'quick' else 4):                     # a trajectory of more than 2^16 frames
         labs, akind = G.alphabet(rng, k=rng.randint(2, 4))
         yield {'trajs': [G.traj(rng, labs, rng.randint(66000, 72000), sticky=0.6), G.traj(rng, labs, 5)], 'lag': rng.choice([2, 3, 7]),
@@ -114,6 +120,13 @@ def impl(case):
     T, st = mh.msm.estimate_markov_model(data, lag)
     data2 = build(case['form'], case['trajs'], case.get('dtypes') or [case['dtype']], case.get('layout'))
     obj = mh.StateTraj(data2)
+    # the object served other analyses before (coring with windows 2 and 3, reading its trajectories)
+    for w in (2, 3):
+        try:
+            mh.md.dynamical_coring(obj, w)
+        except Exception:  # noqa
+            pass
+    _ = obj.trajs, obj.index_trajs
     T2, st2 = obj.estimate_markov_model(lag)
     out = {'T': canon(T), 'st': canon(st), 'T2': canon(T2), 'st2': canon(st2)}
     # the caller owns what was returned: overwriting it must not reach a later estimate on the same object
